@@ -65,6 +65,12 @@ func init() {
 	regExtern("(*sync.RWMutex).Unlock", "as Mutex.Unlock", lock("Unlock"))
 	regExtern("(*sync.RWMutex).RLock", "treated as Lock (sound over-approximation)", lock("Lock"))
 	regExtern("(*sync.RWMutex).RUnlock", "treated as Unlock", lock("Unlock"))
+	regExtern("(*sync.Cond).Wait", "Unlock then Lock of the declared lock of the object owning the condition variable (invariant checked, guarded state havocked, invariant assumed)", func(x *Exec, fc *funcCtx, n *node, callee *ssa.Function, args []Value, rty types.Type, pos token.Pos) Value {
+		if !x.condWait(n, args[0], pos) {
+			x.VC.Warnf("sync.Cond.Wait on a condition variable the engine cannot relate to a declared lock in %s: no effect modelled", x.TopName)
+		}
+		return TupleV{}
+	})
 	regExtern("(*sync.Once).Do", "runs the function iff this Once has not fired (ghost Once.done of the owning object), then marks it fired", func(x *Exec, fc *funcCtx, n *node, callee *ssa.Function, args []Value, rty types.Type, pos token.Pos) Value {
 		_, _, obj, ok := x.mutexOf(args[0])
 		cv, isC := args[1].(ClosureV)
